@@ -294,7 +294,7 @@ impl Prop for C06 {
 			if i % nshards != shard {
 				continue;
 			}
-			let x = "x".repeat(n);
+			let x = gen::filler(n);
 			for (k, (base, reference)) in [
 				(format!("s{x}://h//b/c"), "g".to_string()),
 				(format!("s{x}://h/a/b"), "/a/..//b".to_string()),
@@ -302,6 +302,9 @@ impl Prop for C06 {
 				("s://h/a/b".to_string(), format!("t{x}://g//b/../c")),
 				(format!("s://{x}@h{x}:1//b/c"), "./g/..".to_string()),
 				("s:/a/b".to_string(), format!("{x}/../..//c:d")),
+				(format!("tag:./{x}/file"), "g".to_string()),
+				("tag:a".to_string(), format!("./{x}")),
+				(format!("s://h/./{x}"), format!("./{x}/.")),
 				(format!("s:{x}/b"), format!("./_{x}:c/../..")),
 			].into_iter().enumerate() {
 				let fam = if (i + k) % 2 == 0 { Fam::Uri } else { Fam::Iri };
@@ -356,6 +359,12 @@ impl Prop for C06 {
 					refs.push(format!("t:{p}{tail}"));
 				}
 			}
+		}
+		// deep references WITHOUT dot segments (bulk-append shortcuts) against every base shape
+		for k in [15usize, 16, 17, 31, 32, 33, 40, 64, 100, 300] {
+			refs.push((0..k).map(|j| format!("s{j}")).collect::<Vec<_>>().join("/"));
+			refs.push(format!("{}/", (0..k).map(|j| format!("s{j}")).collect::<Vec<_>>().join("/")));
+			refs.push(format!("/{}?y", (0..k).map(|j| format!("s{j}")).collect::<Vec<_>>().join("/")));
 		}
 		let mut i = 0usize;
 		for b in &bases {
